@@ -27,11 +27,14 @@ Hop(p) ==
   ELSE IF p.hp \in {":1", "h:"} THEN "fail-or-dial-error"  \* syntactically split, unusable address
   ELSE p.mode
 
+CONSTANTS MaxEntries
 VARIABLE res
-Init == res \in UNION {[1..k -> Entry] : k \in 1..2}
+Init == res \in UNION {[1..k -> Entry] : k \in 1..MaxEntries}
 Next == FALSE /\ UNCHANGED res
 All(r) == [i \in 1..Len(r) |-> ParseEntry(r[i])]
-FirstOK == TRUE
+\* sanity: the first entry decides the hop; a failing first entry never yields a hop
+FirstDecides == Hop(ParseEntry(res[1])) \in {"fail", "fail-or-dial-error", "direct", "http", "https", "socks5"}
+UnsupportedFails == res[1].kw \in {"SOCKS", "SOCKS4"} => Hop(ParseEntry(res[1])) = "fail"
 Emit == PrintT(ToJson([res |-> res, all |-> All(res),
                        allOk |-> (\A i \in 1..Len(res) : ParseEntry(res[i]).ok),
                        first |-> ParseEntry(res[1]), hop |-> Hop(ParseEntry(res[1]))]))
